@@ -94,6 +94,28 @@ def install(symbolic):
     if symbolic:
         buf.np = _NpStub()                            # S2
         pfc.float = _float_stub                       # S3
+        # S9: formatting a symbolic number into a message string yields a placeholder instead of
+        # enumerating its values (the repository only formats numbers into error/debug messages)
+        from crosshair.libimpl import builtinslib
+        from crosshair import opcode_intercept as oi
+        from crosshair.tracers import NoTracing
+        builtinslib.SymbolicNumberAble.__format__ = lambda self, fmt: '<sym>'
+
+        def is_sym_num(v):
+            with NoTracing():
+                return isinstance(v, builtinslib.SymbolicNumberAble)
+
+        def wrap(name):
+            orig = getattr(oi.FormatStashingValue, name)
+
+            def f(self, *a):
+                if is_sym_num(self.value):
+                    self.formatted = '<sym>'
+                    return ''
+                return orig(self, *a)
+            setattr(oi.FormatStashingValue, name, f)
+        for n in ('__format__', '__str__', '__repr__'):
+            wrap(n)
 
 
 STUB_TEXT = [
@@ -101,6 +123,7 @@ STUB_TEXT = [
     'S2 buffer.np.nextafter(now,inf)-now -> an Eps comparing like a real in (0,1) against integers (integer clock)',
     "S3 part_flow_controller.float('inf') -> 10**30 sentinel (times kept below 10**12)",
     'S4 system.time -> constant (only printed)',
+    'S9 f-string formatting of a symbolic number yields the placeholder "<sym>" (messages are never compared)',
     'S7 print in simulation.py/resource_manager.py and ReservedResources.__del__ (diagnostic printing only) silenced',
 ]
 
